@@ -655,8 +655,11 @@ func (s *Server) handleLCPTermRequest(session *Session, pkt *LCPPacket) {
 	}
 	s.sendPPPPacket(session, ProtocolLCP, resp.Serialize())
 
-	// Terminate session
+	// Terminate session: give its address back to the pool, as PADT does
 	session.SetState(StateClosed)
+	if s.clientIPPool != nil {
+		s.clientIPPool.Release(session.SessionID)
+	}
 	s.sessions.RemoveSession(session.ID)
 }
 
